@@ -7,7 +7,7 @@
 //! structural model + specification root; `from_set` / `root_from_set` / `nodes_from_set` of the final
 //! map (shuffled, with duplicate keys) likewise.
 use crate::{ctx::Ctx, gen::smt::*, util::hex};
-use fuel_merkle::sparse::{self, in_memory, in_memory::NodesTable, MerkleTreeError};
+use fuel_merkle::sparse::{self, in_memory, MerkleTreeError};
 use std::collections::BTreeMap;
 
 type Tree = sparse::MerkleTree<NodesTable, ObsStore>;
